@@ -18,7 +18,7 @@
 (* GenDate (set by the backend's clock).                                                            *)
 EXTENDS Integers, Sequences, FiniteSets, TLC
 
-NoneV   == <<-1>>            \* FrozenTrial.values is None
+NoneV   == <<-999>>          \* FrozenTrial.values is None (no value token is -999)
 NegInfV == -1000
 PosInfV == 1000
 NaNV    == 9999
@@ -97,6 +97,16 @@ NewTrial(st, s, tm) ==
        [live |-> TRUE, study |-> s, number |-> Len(st.studies[s].trials), state |-> tm.state, values |-> tm.values,
         params |-> tm.params, ua |-> tm.ua, sa |-> tm.sa, iv |-> tm.iv, ts |-> tm.ts, tc |-> tm.tc]
 
+\* All distributions recorded for `name` in the study of trial t (any trial, template-created included).
+DistsOf(st, s, name) == {st.trials[u].params[name].d :
+                           u \in {w \in LiveTrialIds(st) : st.trials[w].study = s /\ name \in DOMAIN st.trials[w].params}}
+
+\* D13: a template whose parameter distributions are incompatible with what the study already recorded for the
+\* same name is outside the contract (RDB rejects it with ValueError, the other backends store it).
+CreateTrialDefined(st, s, tm) ==
+  (LiveS(st, s) /\ tm.has = 1) =>
+     \A name \in DOMAIN tm.params : \A o \in DistsOf(st, s, name) : Compat(o, tm.params[name].d)
+
 DoCreateTrial(st, s, tm) ==
   IF ~LiveS(st, s) THEN Res(st, Err("KeyError"))
   ELSE LET t == Len(st.trials) + 1 IN
@@ -104,10 +114,6 @@ DoCreateTrial(st, s, tm) ==
 
 Updatable(st, t) == IF ~LiveT(st, t) THEN "KeyError"
                     ELSE IF Finished(st.trials[t].state) THEN "UpdateFinishedTrialError" ELSE "ok"
-
-\* All distributions recorded for `name` in the study of trial t (any trial, template-created included).
-DistsOf(st, s, name) == {st.trials[u].params[name].d :
-                           u \in {w \in LiveTrialIds(st) : st.trials[w].study = s /\ name \in DOMAIN st.trials[w].params}}
 
 \* Out-of-contract calls are excluded by this precondition (named deviations, DESIGN.md 3.1):
 \*  D10 a second set_trial_param for the same (trial, name) is unspecified (RDB keeps the first value);
